@@ -243,7 +243,7 @@ DIMS = [
     ("align", ["none", "a", "s", "as", "origin", "s+origin"]),
     ("n_to_align", [-1, 4, 6]),
     ("downsample", [None, 5]),
-    ("motion_filter", [None, (0.5, 30.0), (100.0, 40.0)]),
+    ("motion_filter", [None, (0.5, 30.0), (100.0, 40.0), (2.5, 170.0)]),
     ("t_max_diff", [0.01, 0.3]),
     ("t_offset", [0.0, 0.125, 1.0]),
     ("crop", [None, (1.5, 4.0)]),
@@ -331,7 +331,8 @@ def run_point(pt):
         return ["stored %d values, %d pairs are selected on the processed "
                 "trajectories" % (err.size, exp.size)], "values"
     msgs = []
-    tol = c01.tol_for(rel, 10) * (1000.0 if unit == "mm" else 1.0)
+    tol = c01.tol_for(rel, 1e5 if pt.get("geometry") == "f" else 10) * (
+        1000.0 if unit == "mm" else 1.0)
     if err.size and np.abs(err - exp).max() > tol:
         k = int(np.argmax(np.abs(err - exp)))
         msgs.append("stored value %d = %.12g, reference pipeline gives %.12g"
@@ -390,7 +391,7 @@ def lattice_points(ctx):
              ("delta", [("f", 1), ("m", 1.5)]), ("all_pairs", [False, True]),
              ("from_ref", [False, True]), ("align", ["none", "as"]),
              ("downsample", [None, 5]),
-             ("motion_filter", [None, (0.5, 30.0)]),
+             ("motion_filter", [None, (0.5, 30.0), (2.5, 170.0)]),
              ("t_max_diff", [0.01, 0.3]), ("t_offset", [0.0, 0.125, 1.0]),
              ("crop", [None, (1.5, 4.0)]), ("project", [None, "xz"]),
              ("unit", [None, "incompatible"]), ("fmt", ["tum", "euroc"])]
@@ -414,6 +415,17 @@ def lattice_points(ctx):
                 "project": None, "unit": None}
         for p in lattice.product(c):
             pts.append(dict(base, **p))
+    # geometry variants of the estimate: mirrored copy, both far from the
+    # origin, the reference file given twice
+    g = [("geometry", ["m", "f", "same"]), ("relation", DIMS[0][1]),
+         ("delta", [("f", 1), ("m", 1.5), ("d", 37.0)]),
+         ("all_pairs", [False, True]), ("align", ["none", "as", "origin"]),
+         ("project", [None, "xy"])]
+    base = {"from_ref": False, "n_to_align": -1, "downsample": None,
+            "motion_filter": None, "t_max_diff": 0.01, "t_offset": 0.0,
+            "crop": None, "unit": None, "fmt": "tum", "epoch": 0.0}
+    for p in lattice.product(g):
+        pts.append(dict(base, **p))
     seen, out = set(), []
     for p in pts:
         k = json.dumps(c01.normalise(p), sort_keys=True)
